@@ -71,7 +71,8 @@ CHECKS['C13'] = dict(
           "(soundness, seed preservation, agreement with a reference matcher); every substitution-free pattern x every "
           "map into a 9-element pool (completeness, incl. the empty solution, also through the list form match()); all "
           "equation lists up to length 2/3 over 14 equations; every shipped notation x argument tuple through "
-          "matches/assert_matches (incl. arity 0 and the notation-free expansion)."),
+          "matches/assert_matches (incl. arity 0 and the notation-free expansion). The universe includes variables of both "
+          "sorts hidden behind definitions that expand to a bare variable (identity, nested identity, 0-ary alias), free and under binders."),
     note='Trusted: reference matcher in mc/c13.py on independently expanded terms; no completeness claim for patterns with pending substitutions.',
     technique='bounded-exhaustive enumeration against a reference matcher',
     design='5/C13',
@@ -247,7 +248,8 @@ CHECKS['C17'] = dict(
     level='exploration',
     text=("Bounded-exhaustive over a construction grammar of databases (order of floating hypotheses x declared notation x every "
           "subset of {plain lemma, lemma under $e, under $d, in a nested block, under a global $d, with a $d naming an unused "
-          "variable, through a dummy variable, using another lemma with hypotheses} x goal variants), all proofs "
+          "variable, through a dummy variable, using another lemma with hypotheses, over a constant that has no constructor axiom "
+          "and occurs only inside essential hypotheses} x goal variants), all proofs "
           "produced by the reference encoder and verified by the reference verifier: parse(print(db)) == db, printing "
           "idempotent, printed text read back by an independent tokenizer; the slicing pipeline as main() drives it must "
           "produce, for every lemma the goal needs, a slice that the reference verifier accepts (everything declared before "
@@ -284,7 +286,8 @@ CHECKS['C20'] = dict(
           "Kore: variable scoping per axiom (element and sort variables) and convert(rule).instantiate(convert(s)) == "
           "convert(s(rule)) for all ground s. Traces as users supply them: every event sequence of length <=2/3, chained or "
           "not, with the recorded configurations filled in four ways, through from_proof_hints and through "
-          "LLVMRewriteTrace -> get_proof_hints -> from_proof_hints over the stub Kore definition."),
+          "LLVMRewriteTrace -> get_proof_hints -> from_proof_hints over the stub Kore definition; for every accepted truthful "
+          "Kore trace each proof expression is run after the whole trace was converted and must conclude its own claim."),
     note='Assumption: mc/stubs/pyk (kore.syntax, kllvm) stands in for the absent pyk package. Trace length 4 (quick) / 5 (thorough).',
     technique='explicit-state BFS over rewrite-event histories of the real proof-module object; end-to-end acceptance by the real checker',
     design='5/C20',
